@@ -2,7 +2,7 @@
 # try_seeded.sh <patch.diff> <Cxx> [Cxx...]   — apply a seeded change to /repo, run the checks, undo it straight afterwards
 p=$1; shift
 git -C /repo apply "$p" || exit 2
-trap 'git -C /repo checkout -- . ; git -C /repo status --short' EXIT
+trap 'git -C /repo checkout -- . ; git -C /repo status --short; /verif/.work/factx-bin /repo /verif/lean/Dirk/Gen/Facts.lean' EXIT
 for c in "$@"; do
   ( cd /verif && timeout 3000 ./check $c --tier ${TIER:-quick} 2>&1 | grep -E "VIOLATION|KNOWN|^C[0-9]+|held|broken|wall" | head -20; echo "exit=${PIPESTATUS[0]}" )
 done
